@@ -405,13 +405,13 @@ def cases(ctx):
     table = [{"tool": t, "stdin": s, "rungs": [a]} for t, a, s, _tag in table]
     allc = chains()
     groups = sorted({group_of(c["tool"], c["rungs"][0]) for c in allc} | {group_of(c["tool"], c["rungs"][0]) for c in table})
-    for part in split(table, 4):
+    for part in split(table, 3 if tier != "thorough" else 4):
         pool.add(part, 20.0, 240.0, keep_going=True)
     if tier == "thorough":
         for part in split(allc, 8):
             pool.add(part, 1.0, 500.0)
     else:
-        for part in split(rng.sample(allc, min(len(allc), 24)), 2):
+        for part in split(rng.sample(allc, min(len(allc), 12)), 2):
             pool.add(part, 1.0, 40.0)
     return [group_case(pool, g) for g in groups]
 
